@@ -95,6 +95,15 @@ pub fn check_kinds(mv: &MV) -> CaseResult {
                     ));
                 }
             }
+            // is_f64 is exempt from the equivalence above (as_f64 converts
+            // integers), but it still holds exactly for floats, and the
+            // numeric accessors give None on everything that is not a number
+            if v.is_f64() != matches!(m, MV::F(_)) {
+                problems.push((format!("op=is_f64 kind={}", expected), format!("is_f64() = {} on {}", v.is_f64(), short(m))));
+            }
+            if !matches!(m, MV::U(_) | MV::I(_) | MV::F(_)) && (v.as_f64().is_some() || v.as_i64().is_some() || v.as_u64().is_some() || v.is_i64() || v.is_u64()) {
+                problems.push((format!("op=numeric-accessor-on-non-number kind={}", expected), format!("a numeric accessor or predicate answers on {}", short(m))));
+            }
             let name_expected = match m {
                 MV::Str(s) | MV::Sym(s) | MV::Kw(s) => Some(s.as_str()),
                 _ => None,
